@@ -785,3 +785,19 @@ def ext_src_get_cur_line(I, node, selfref, args, kwargs, st):
 
 
 EXT_METHODS[('ext.Src', 'get_cur_line')] = ext_src_get_cur_line
+
+
+def ext_textraw_write(I, node, selfref, args, kwargs, st):
+    """plain text sink: the ghost log keeps every written string"""
+    if len(args) != 1 or not isinstance(args[0], SStr):
+        yield st, I.exc('TypeError', node)
+        return
+    o = st.heap[selfref.addr]
+    log = o.fields['log']
+    lo = st.heap[log.addr]
+    lo2 = st.mut(log.addr)
+    lo2.e = z3.Concat(lo.e, z3.Unit(args[0].z()))
+    yield st, SInt(I.fresh('nwritten', z3.IntSort()))
+
+
+EXT_METHODS[('ext.TextOutRaw', 'write')] = ext_textraw_write
